@@ -95,6 +95,8 @@ def parse_steps(s: str):
             out.append(("f", kv[1]))
         elif kv[0] == "k":
             out.append(("k", p_list(kv[1])))
+        elif kv[0] == "d":
+            out.append(("d", [_int(x) for x in p_list(kv[1])]))
         else:
             raise Malformed(f)
     return out
@@ -133,13 +135,15 @@ def parse_op(s: str):
         return ("rf", _nat(f[1]), f[2] == "1", _nat(f[3]), _int(f[4]), p_path(f[5]))
     if k == "nr" and len(f) == 3:
         return ("nr", _nat(f[1]), _nat(f[2]))
+    if k == "cl" and len(f) == 2:
+        return ("cl", _nat(f[1]))
     if k == "md" and len(f) == 3:
         return ("md", _nat(f[1]), [parse_edit(e) for e in f[2].split("+")])
     if k == "ld" and len(f) == 3:
         return ("ld", _nat(f[1]), _nat(f[2]), [])
     if k == "ld" and len(f) == 4:
         items = [parse_edit(e) for e in f[3].split("+")]
-        if any(it[0] not in ("v", "a") for it in items):
+        if any(it[0] == "x" for it in items):
             raise Malformed(s)
         return ("ld", _nat(f[1]), _nat(f[2]), items)
     if k == "fx" and len(f) == 9:
@@ -173,10 +177,11 @@ def parse_line(line: str):
         raise Malformed("init")
     nsys = 1
     for o in ops:                      # the driver answers BAD when an index designates nothing
-        if o[0] == "nr":
+        if o[0] in ("nr", "cl"):
             if o[1] >= nsys:
                 raise Malformed("system")
-            nsys += 1
+            nsys += 1                  # (a clone of a system without parameters raises: the driver then answers ERR and
+                                       # creates nothing; such lines are not generated and later indices may be BAD)
         elif o[1] >= nsys:
             raise Malformed("system")
         if o[0] in ("ld", "ex") and o[2] >= n:
@@ -205,6 +210,16 @@ def ref_update(t, path, upd):
         if t[0] != "P":
             return None
         return ("P", t[1], t[2] + (upd,))
+    if t[0] == "S":
+        # `scale.brackets[i].<field>.update(…)`: the field must be a child of the bracket
+        if len(path) != 2 or not path[0].isdigit() or path[1] not in c06.FIELDS or int(path[0]) >= len(t[2]):
+            return None
+        ups = dict(t[3]) if len(t) > 3 else {}
+        key = f"{int(path[0])}.{path[1]}"
+        if not any(tok != "expected" for _d, tok in t[2][int(path[0])][c06.FIELDS.index(path[1])]) and key not in ups:
+            return None
+        ups[key] = ups.get(key, ()) + (upd,)
+        return ("S", t[1], t[2], ups)
     if t[0] != "N":
         return None
     out, hit = [], False
@@ -236,7 +251,7 @@ def ref_val(t, d):
         v = c06.overlay(t[1], list(t[2]), d)
         return None if v == "none" else v
     if t[0] == "S":
-        _, kind, rows = c06.expect_scale(t[1], t[2], d)
+        _, kind, rows = c06.expect_scale(t[1], t[2], d, {k: list(v) for k, v in t[3].items()} if len(t) > 3 else None)
         return ("scale", kind + "[" + ",".join(f"{a}:{b}" for a, b in rows) + "]")
     out = {}
     for k, s in t[1]:
@@ -303,6 +318,11 @@ def expect_steps(rows, steps):
             if any(st[1] not in r for r in rows):
                 return None
             rows = [r[st[1]] for r in rows]
+        elif st[0] == "d":
+            # chained as-of-date indexing: element i is, in row i, the child in force at the i-th date
+            if len(st[1]) != len(rows) or not all(asof_domain(r) for r in rows):
+                return None
+            rows = [expect_asof(r, [t])[0] for r, t in zip(rows, st[1])]
         else:
             ks = st[1]
             if len(ks) != len(rows) or any(k not in r for k, r in zip(ks, rows)):
@@ -398,8 +418,24 @@ class Ref:
         if op[0] == "nr":
             self.refs.append(self.refs[op[1]])
             self.base.append(op[1])
+        elif op[0] == "cl":
+            if self.refs[op[1]] is None:
+                return False
+            self.objs.append(self.objs[self.refs[op[1]]])          # a copy: a new object
+            self.refs.append(len(self.objs) - 1)
+            self.base.append(self.base[op[1]])
         elif op[0] == "ld":
-            self._install(op[1], self.trees[op[2]])
+            t = self.trees[op[2]]
+            for e in op[3]:              # what the preprocess_parameters hook did to the tree it was handed
+                if e[0] == "u":
+                    t = ref_update(t, e[1], (e[2], e[3], e[4]))
+                elif e[0] == "c":
+                    t = None if e[3] >= len(self.trees) else ref_add(t, e[1], e[2], self.trees[e[3]])
+                elif e[0] == "r":
+                    t = None if e[1] >= len(self.trees) else self.trees[e[1]]
+                if t is None:
+                    return False         # the hook raised: nothing is installed
+            self._install(op[1], t)
         elif op[0] == "ex":
             s = op[1]
             r = self.refs[s]
@@ -651,10 +687,20 @@ class World:
             return parameters(period.start)
         return parameters(period)
 
-    @staticmethod
-    def walk(x, path):
+    def walk(self, x, path):
+        """`x.a.b`, each step by attribute or by item (`x["a"]` on a node at an instant or its tracing wrapper,
+        `x.children["a"]` on a ParameterNode)"""
+        from openfisca_core.parameters import ParameterNode, ParameterScale
         for k in path:
-            x = getattr(x, k)
+            r = self.rs.random()
+            if isinstance(x, ParameterScale):
+                x = x.brackets[int(k)] if r < 0.5 else x[int(k)]
+            elif isinstance(x, ParameterNode):
+                x = x.children[k] if r < 0.3 else getattr(x, k)
+            elif r < 0.4:
+                x = x[k]
+            else:
+                x = getattr(x, k)
         return x
 
     def read_view(self, s, form, d, path) -> str:
@@ -767,27 +813,50 @@ class World:
         for st in steps:
             if st[0] == "f":
                 x = getattr(x, st[1]) if attr_only or self.rs.random() < 0.5 else x[st[1]]
+            elif st[0] == "d":
+                x = x[self.date_array(st[1])]
             else:
                 x = x[np.array(st[1], dtype=str) if not st[1] else np.array(st[1])]
         return x
 
+    def twice(self, get, key, probe: bool) -> str:
+        """the vector read `get()`; now and then: overwrite the array that came back and read again (a result must
+        not share memory with what later reads are made from), and check that the key vector was left alone"""
+        import numpy as np
+        kept = np.array(key, copy=True)
+        res = get()
+        s1 = show_rows(res)
+        if not (np.asarray(key).shape == kept.shape and bool(np.all(np.asarray(key) == kept))):
+            return "KEY-VECTOR-CHANGED:" + s1
+        if probe and self.rs.random() < 0.3:
+            from openfisca_core.parameters import VectorialParameterNodeAtInstant
+            from openfisca_core.tracers import TracingParameterNodeAtInstant
+            arr = res.parameter_node_at_instant if isinstance(res, TracingParameterNodeAtInstant) else res
+            arr = arr.vector if isinstance(arr, VectorialParameterNodeAtInstant) else arr
+            if isinstance(arr, np.ndarray) and arr.size:
+                arr[...] = np.zeros((), dtype=arr.dtype)
+                s2 = show_rows(get())
+                if s2 != s1:
+                    return f"ALIASED:{s1}->{s2}"
+        return s1
+
     def vec_read(self, s, route, form, d, path, key, steps, attr_only=False) -> str:
         if route == "v":
             try:
-                return show_rows(self.follow(self.walk(self.view_root(s, form, d), path)[key], steps, attr_only))
+                return self.twice(lambda: self.follow(self.walk(self.view_root(s, form, d), path)[key], steps, attr_only), key, True)
             except Exception:
                 return "ERR"
         if route == "t":
             try:
-                node = self.walk(self.systems[s].parameters, path)(iso(d))
-                return show_rows(self.follow(node[key], steps, attr_only))
+                return self.twice(lambda: self.follow(self.walk(self.systems[s].parameters, path)(iso(d))[key], steps, attr_only), key, True)
             except Exception:
                 return "ERR"
 
         def body(parameters, period):
             try:
-                node = self.walk(self.formula_arg(form, d, parameters, period), path)
-                return show_rows(self.follow(node[key], steps, attr_only))
+                # (not probed when traced: a second read would be a second entry of the tracer's log)
+                return self.twice(lambda: self.follow(self.walk(self.formula_arg(form, d, parameters, period), path)[key], steps, attr_only),
+                                  key, route != "g")
             except Exception:
                 return "ERR"
         try:
@@ -884,18 +953,19 @@ class World:
                 _, s, tk, items = op
                 nested: list = []
                 if items:
-                    # the only user code that runs inside load_parameters: the preprocess_parameters hook
-                    def hook(parameters, items=items, nested=nested):
-                        for it in items:
-                            nested.append(self.nested_read(it))
-                        return parameters
-                    self.systems[s].preprocess_parameters = hook
+                    # the only user code that runs inside load_parameters: the preprocess_parameters hook (it reads, edits
+                    # the tree it is handed and returns it, or returns another tree)
+                    self.systems[s].preprocess_parameters = self.modifier(items, nested)
                 try:
                     self.systems[s].load_parameters(self.directory(tk))
+                    outs.append("~".join(["ok"] + nested))
+                except Exception:
+                    if not any(it[0] not in ("v", "a") for it in items):
+                        raise                          # only an editing hook may refuse
+                    outs.append("ERR")
                 finally:
                     if items:
                         del self.systems[s].preprocess_parameters
-                outs.append("~".join(["ok"] + nested))
             elif k == "md":
                 _, s, items = op
                 nested = []
@@ -904,6 +974,14 @@ class World:
                     outs.append("~".join(["ok"] + nested))
                 except Exception:
                     outs.append("ERR")
+            elif k == "cl":
+                try:
+                    new = self.systems[op[1]].clone()
+                except Exception:
+                    outs.append("ERR")
+                else:
+                    outs.append(f"new{len(self.systems)}")
+                    self.systems.append(new)
             elif k == "nr":
                 _, b, n_in = op
                 n_in = min(n_in, hi - i - 1)
@@ -1020,7 +1098,7 @@ def oracle(case: Case, out: str):
         if k == "md" and ref.base[op[1]] is not None and ref.refs[op[1]] != ref.refs[ref.base[op[1]]] and ref.cur[op[1]] != ref.cur[ref.base[op[1]]]:
             vague_sys.add(op[1])
         vague = op[1] in vague_sys
-        if k in ("nr", "ld", "md", "ex"):
+        if k in ("nr", "cl", "ld", "md", "ex"):
             parts = ans.split("~")
             items = [it for it in op[-1] if it[0] in ("v", "a")] if k in ("ld", "md") else []
             if parts[0] == "ok" and items:
@@ -1038,8 +1116,10 @@ def oracle(case: Case, out: str):
                 return ("modify-raised", f"{where}: modify_parameters raised")
             if k == "ld":
                 vague_sys.discard(op[1])
-            if k == "nr" and op[1] in vague_sys:
+            if k in ("nr", "cl") and op[1] in vague_sys:
                 vague_sys.add(len(ref.cur) - 1)
+            if k == "cl" and ok and parts[0] != f"new{len(ref.cur) - 1}":
+                return ("clone-raised", f"{where}: system.clone() answered {ans}")
             if k in ("ld", "md", "ex"):
                 last_change = where
                 changed = True
@@ -1090,6 +1170,10 @@ def oracle(case: Case, out: str):
         if body == "ERR":
             sig = "vector-subnode-raises" if steps and steps[0][0] == "f" else "view-stale" if stale else f"{kindname}-raises"
             return (sig, f"{where}: raised; element-wise the current tree gives {wtxt}")
+        if body != wtxt and any(st[0] == "d" for st in steps) and body != "ERR":
+            # F-C07d: a date vector applied to the result of a date vector read the first row only
+            return ("asof-chained-first-row", f"{where}: got {body}; element-wise (row i of the first index, child in force at the "
+                                              f"i-th date of the second) the current tree of system {s} at {iso(d)} gives {wtxt}")
         if body != wtxt:
             return ("view-stale" if stale else f"{kindname}-pointwise", f"{where}: got {body}; element-wise the current tree of system {s} at {iso(d)} "
                                             f"gives {wtxt} (last change: {last_change})")
@@ -1181,11 +1265,18 @@ def g_asof(rng):
     ds = sorted(rng.sample(ASOF_DATES, n))
     names = [asof_name(ds[0], True)] + [asof_name(x) for x in ds]
     rng.shuffle(names)                       # declaration order is arbitrary
-    nested = rng.random() < 0.3
+    r = rng.random()
+    nested = r < 0.3
     kids = []
     sub = rng.sample(TENURES, 2)
+    if 0.3 <= r < 0.45:                      # as-of groups nested in an as-of group (two dates: birth, claim)
+        ds2 = sorted(rng.sample(ASOF_DATES, rng.randint(1, 2)))
+        sub = [asof_name(ds2[0], True)] + [asof_name(x) for x in ds2]
+        nested = True
     for nm in names:
-        kids.append((nm, ("N", [(k, g_param(rng, True)) for k in sub]) if nested else g_param(rng, True)))
+        inner = list(sub)
+        rng.shuffle(inner)
+        kids.append((nm, ("N", [(k, g_param(rng, True)) for k in inner]) if nested else g_param(rng, True)))
     return ("N", kids)
 
 
@@ -1202,7 +1293,7 @@ def g_tree(rng):
         kids.append((nm, g_param(rng)))
     if rng.random() < 0.3:
         kids.append(("sub", ("N", [(k, g_param(rng)) for k in rng.sample(["a", "b", "c"], rng.randint(1, 3))])))
-    if rng.random() < 0.15:
+    if rng.random() < 0.25:
         lo = ENTRY_DATES[0].toordinal()
         kids.append(("sc", c06.gen_scale(rng, lo, lo + 400, rng.randint(1, 2))[0]))
     if rng.random() < 0.12:                  # an inhomogeneous group: a node beside a value, a sibling with a
@@ -1242,6 +1333,9 @@ def param_paths(t, prefix=()):
         return out
     if t[0] == "P":
         return [list(prefix)]
+    if t[0] == "S":
+        return [list(prefix) + [str(i), c06.FIELDS[j]] for i, br in enumerate(t[2]) for j, f in enumerate(br)
+                if any(tok != "expected" for _d, tok in f)]
     if t[0] == "N":
         for k, s in t[1]:
             out += param_paths(s, prefix + (k,))
@@ -1366,7 +1460,13 @@ def g_vec(rng, ref: Ref, s: int, hot: list):
             route = "f"
         sample = node[names[0]]
         steps = "-"
-        if isinstance(sample, dict) and sample and rng.random() < 0.8:
+        if isinstance(sample, dict) and any(k.startswith("before") for k in sample) and dates and rng.random() < 0.7:
+            r2 = rng.random()                # a second date vector on the result of the first
+            d2 = [rng.choice(pool) for _ in range(len(dates) if r2 < 0.9 else rng.choice([1, len(dates) + 1]))]
+            if r2 < 0.3:                     # the first index picks one child for every row
+                dates = [dates[0]] * len(dates)
+            steps = "d=" + ",".join(map(str, d2))
+        elif isinstance(sample, dict) and sample and rng.random() < 0.8:
             steps = "f=" + rng.choice(sorted(sample))
         return f"ao:{s}:{route}:{form}:{d}:{fmt_path(path)}:{','.join(map(str, dates)) or '-'}:{steps}"
     if rng.random() < 0.03:
@@ -1392,7 +1492,8 @@ def g_edits(rng, ref: Ref, b: int, ntrees: int, hot: list) -> str:
         if rng.random() < 0.5:
             return "+".join(edits)
     for _ in range(rng.choice([1, 1, 1, 2, 3])):
-        p = rng.choice(paths)
+        in_scale = [q for q in paths if len(q) >= 2 and q[-1] in c06.FIELDS and q[-2].isdigit()]
+        p = rng.choice(in_scale) if in_scale and rng.random() < 0.5 else rng.choice(paths)       # a bracket of a scale
         a = (rng.choice(hot) if hot and rng.random() < 0.5 else rng.choice(READ_DATES).toordinal()) - rng.choice([0, 0, 0, 1, 30, 365])
         b_ = "-" if rng.random() < 0.5 else str(a + rng.choice([0, 1, 30, 365, 366, 900]))
         edits.append(f"u,{fmt_path(p)},{a},{b_},{g_val(rng) if rng.random() < 0.93 else 'null'}")
@@ -1502,8 +1603,23 @@ def gen_history(rng, n_ops=None) -> Case:
     def reload(s):
         keys: list = []
         nested = g_nested(rng, ref, s, hot, keys) if rng.random() < 0.3 else []
-        emit(f"ld:{s}:{rng.randrange(ntrees)}" + (":" + "+".join(nested) if nested else ""))
-        if nested:
+        k = rng.randrange(ntrees)
+        if rng.random() < 0.3:
+            # a hook that edits the tree it is handed and returns it, or returns another tree
+            paths = param_paths(ref.trees[k])
+            if paths and rng.random() < 0.75:
+                edits = []
+                for _ in range(rng.choice([1, 1, 2])):
+                    a = (rng.choice(hot) if hot and rng.random() < 0.5 else rng.choice(READ_DATES).toordinal()) - rng.choice([0, 0, 1, 30])
+                    b_ = "-" if rng.random() < 0.5 else str(a + rng.choice([0, 30, 365, 900]))
+                    edits.append(f"u,{fmt_path(rng.choice(paths))},{a},{b_},{g_val(rng)}")
+                e = "+".join(edits)
+            else:
+                e = f"r,{rng.randrange(ntrees)}"
+            nested = with_nested(rng, e, nested).split("+")
+            tags.append("editing-hook")
+        emit(f"ld:{s}:{k}" + (":" + "+".join(nested) if nested else ""))
+        if any(n[0] in "va" for n in nested):
             tags.append("nested-read-in-hook")
         follow_up(s, keys)
         after_change(s)
@@ -1557,6 +1673,23 @@ def gen_history(rng, n_ops=None) -> Case:
             if rng.random() < 0.7:
                 ops[at] = f"nr:{b}:{len(ops) - at - 1}"        # everything generated so far runs inside apply()
             tags.append("apply:" + "".join(body))
+        elif r < 0.76 and len(ref.cur) < 5 and ref.cur[s] is not None:
+            # system.clone() after its view (and the views of those it shares its tree with) were read, then a change on
+            # one side and reads on both
+            some_read(s)
+            new = len(ref.cur)
+            emit(f"cl:{s}")
+            tags.append("clone-system" + ("-of-reform" if ref.base[s] is not None else ""))
+            some_read(new)
+            side = rng.choice([s, new])
+            if ref.base[side] is not None and rng.random() < 0.6:
+                modify(side)
+            elif rng.random() < 0.5 and ref.base[side] is None:
+                extend(side)
+            else:
+                reload(side)
+            some_read(new)
+            some_read(s)
         elif r < 0.88 and ref.base[s] is not None:
             modify(s)
             tags.append("modify-outside-apply")
@@ -1599,7 +1732,8 @@ MALFORMED = [
     "pview h 0 md:0:u,-,1,2,3 1 N 1 a P 5:1", "pview h 0 ld:0:3 1 N 1 a P 5:1", "pview h 0 nr:2:0 1 N 1 a P 5:1",
     "pview h 0 fx:0:q:0:5:-:n:a:- 1 N 1 a P 5:1", "pview h 0 fx:0:v:0:5:-:z:a:- 1 N 1 a P 5:1", "pview h 0 ra:0:0:5:- 2 N 1 a P 5:1",
     "pview h 0 ra:0:0:5:- 1 N 1 a P 5:1 extra", "pview q 0 ra:0:0:5:- 1 N 1 a P 5:1", "pview h 0 ao:0:v:0:5:-:x:- 1 N 1 a P 5:1",
-    "pview h 0 fx:0:v:0:5:-:n:a:q=1 1 N 1 a P 5:1",
+    "pview h 0 fx:0:v:0:5:-:n:a:q=1 1 N 1 a P 5:1", "pview h 0 cl:1 1 N 1 a P 5:1", "pview h 0 cl:0:0 1 N 1 a P 5:1",
+    "pview h 0 ao:0:v:0:5:-:5:d=x 1 N 1 a P 5:1",
 ]
 
 
@@ -1711,6 +1845,16 @@ def corpus():
     ds = ",".join(str(o(x)) for x in ("1979-12-31", "1980-01-01", "1989-12-31", "1990-01-01", "2020-05-05"))
     for route, style in (("v", 6), ("t", 8), ("f", 10), ("g", 12)):
         out.append(Case(line=f"pview h 0 ao:0:{route}:0:{d18}:h:{ds}:- 1 {asof}", payload={"style": style}, tags=("corpus", "F-C07c")))
+    # F-C07d: nested as-of groups indexed by two date vectors — the second index read the first row only
+    asof2 = (f"N 1 h N 2 before_1980_01_01 N 2 before_2000_01_01 P {d15}:1 after_2000_01_01 P {d15}:2 "
+             f"after_1980_01_01 N 2 after_2000_01_01 P {d15}:4 before_2000_01_01 P {d15}:3")
+    b1 = ",".join(str(o(x)) for x in ("1970-01-01", "1990-01-01", "1990-01-01"))
+    b2 = ",".join(str(o(x)) for x in ("1999-01-01", "1999-01-01", "2005-01-01"))
+    for route, style in (("v", 40), ("t", 41), ("f", 42), ("g", 43)):
+        out.append(Case(line=f"pview h 0 ao:0:{route}:0:{d18}:h:{b1}:d={b2} 1 {asof2}", payload={"style": style}, tags=("corpus", "F-C07d")))
+    # ... and was right when every row of the first index is the same child
+    b1s = ",".join(str(o(x)) for x in ("1990-01-01", "1985-01-01", "2010-01-01"))
+    out.append(Case(line=f"pview h 0 ao:0:v:0:{d18}:h:{b1s}:d={b2};ao:0:g:0:{d18}:h:{b1s}:d={b2} 1 {asof2}", payload={"style": 44}, tags=("corpus", "asof-chained")))
     for c in out:
         c.origin = "corpus"
     return out
@@ -1769,7 +1913,15 @@ PROP = Prop(
           "reads on fresh simulations and on simulations created before the change; more distinct reads than the memo holds; "
           "vector reads node[keys] with 0-8 keys as str / object / bytes arrays, Enum members, EnumArray, integers of every width, "
           "datetime64 vectors in units D/h/m/s/ms/us/ns/M/Y with and without a time of day, followed by .name, ['name'] or a "
-          "second key vector, and node[datetime64 vector] with dates at the after_ boundaries +-1, through all four routes. "
+          "second key vector, and node[datetime64 vector] with dates at the after_ boundaries +-1, through all four routes; 15% of the as-of groups hold "
+          "as-of groups (birth date, claim date) and are indexed by two date vectors in a row (same length, length 1, one more), the first one "
+          "sometimes constant; attribute paths are walked by attribute or by item (`x['a']` on a node at an instant and on its tracing wrapper, "
+          "`x.children['a']` on a ParameterNode); modifiers and hooks also update the dated fields of scale brackets (`scale.brackets[i].rate.update(…)`, half of "
+          "the updates when the tree has a scale, a quarter of the trees); 30% of the load_parameters calls with a hook have a hook that EDITS the tree it is handed "
+          "(1-2 updates) or RETURNS ANOTHER tree (the return value must be the one installed); 30% of the untraced vector reads are repeated after "
+          "the array that came back was overwritten with zeros (a result must not share memory with what later reads are made from), and every key "
+          "vector is compared with a copy after the read; system.clone() after views were read, followed by a modification, reload or extension of the clone "
+          "or of the original and reads of both. "
           "A case is non-trivial when it shows at least two distinct values. distinct = distinct protocol lines."),
     assumptions=[
         "instants are proleptic ordinals in the model and zero-padded ISO strings in the code (same order on years 1..9999, Lemmas/Calendar.lean)",
@@ -1803,6 +1955,7 @@ PROP = Prop(
                 "to its log; vector indexing is element-wise the child's value with its exact error condition; as-of-date indexing returns "
                 "the child in force whatever the declaration order; a reform's modification leaves every other system's reads unchanged; "
                 "modify_parameters / load_parameters as ordered sub-steps (copy, user function with arbitrary nested reads, install, clear): "
-                "whatever was read meanwhile, every route reads the new tree afterwards. "
+                "whatever was read meanwhile, every route reads the new tree afterwards; chained as-of-date indexing is row by row the child in "
+                "force (the F-C07d repair); system.clone() reads the tree it copied and spares everybody. "
                 "K: real TaxBenefitSystem / Reform / Simulation objects against the model; numpy recarray mechanics modelled."),
 )
